@@ -1208,7 +1208,9 @@ func c10Correspond(c *vh.Ctx, r *c10Run) {
 		c.Report(vh.Finding{Class: "driver-failure", What: err.Error(), Check: "correspondence", Op: "c10-raw", NoInput: true})
 		return
 	}
-	wf, notwf := 0, 0
+	// every tree the (repaired) decoder returns is WF and has its receivers (C10_json_decoder_wf): the model line
+	// ends with wf=… recv=…, which the implementation has no notion of
+	decOK, decReject, notwf := 0, 0, 0
 	for i, rc := range recs {
 		m := model[i]
 		if strings.HasPrefix(m, "skip ") {
@@ -1216,14 +1218,18 @@ func c10Correspond(c *vh.Ctx, r *c10Run) {
 			continue
 		}
 		c.Res.Corresponded++
-		// the model line ends with wf=…; the implementation has no such notion
 		mm := m
 		if j := strings.Index(m, " wf="); j >= 0 {
 			mm = m[:j]
-			if strings.HasSuffix(m, "wf=true") {
-				wf++
-			} else if strings.HasSuffix(m, "wf=false") {
+			switch {
+			case strings.HasPrefix(m, "dec=reject"):
+				decReject++
+			case strings.HasSuffix(m, "wf=true recv=true"):
+				decOK++
+			case strings.HasPrefix(m, "dec=ok"):
 				notwf++
+				c.Report(vh.Finding{Class: "wf-model-contradicts-theorem", What: "the model decoder returned a tree that is not WF / lacks a receiver: " + m, Check: "correspondence", Op: "c10-raw",
+					Input: map[string]any{"doc": rc.doc, "raw": b.Line(i).Payload()}})
 			}
 		}
 		if mm != rc.impl {
@@ -1231,9 +1237,9 @@ func c10Correspond(c *vh.Ctx, r *c10Run) {
 				Input: map[string]any{"doc": rc.doc, "raw": b.Line(i).Payload()}, Expected: mm, Actual: rc.impl})
 		}
 	}
-	c.Res.Notes = append(c.Res.Notes, fmt.Sprintf("c10-raw: %d trees, decoded trees WF=%d not-WF=%d", len(recs), wf, notwf))
-	if wf == 0 || notwf == 0 {
-		c.Report(vh.Finding{Class: "generator-collapse", What: fmt.Sprintf("raw tree stream: WF=%d not-WF=%d", wf, notwf), Check: "self-test", NoInput: true})
+	c.Res.Notes = append(c.Res.Notes, fmt.Sprintf("c10-raw: %d trees, decoder accepts %d (all WF with receivers), rejects %d", len(recs), decOK, decReject))
+	if decOK == 0 || decReject == 0 {
+		c.Report(vh.Finding{Class: "generator-collapse", What: fmt.Sprintf("raw tree stream: accepted=%d rejected=%d", decOK, decReject), Check: "self-test", NoInput: true})
 	}
 }
 
@@ -1283,11 +1289,12 @@ func c10CheckPanicSites(c *vh.Ctx) {
 		c.Report(vh.Finding{Class: "panic-site-expectations-missing", What: err.Error(), Check: "proof", NoInput: true})
 		return
 	}
-	type site struct{ File, Func, Kind, Expr, Class string }
+	type site struct{ File, Func, Kind, Expr, Guard, Class string }
 	var got struct {
 		PanicSites []site   `json:"panicSites"`
 		Parser     []string `json:"parserConstructionSites"`
 		Ptr        []string `json:"jsonDecoderPointerContainers"`
+		NilGuards  []string `json:"jsonDecoderNilGuards"`
 	}
 	var exp struct {
 		PanicSites []site `json:"panicSites"`
@@ -1297,12 +1304,22 @@ func c10CheckPanicSites(c *vh.Ctx) {
 		Ptr struct {
 			Value []string `json:"value"`
 		} `json:"jsonDecoderPointerContainers"`
+		NilGuards struct {
+			Value []string `json:"value"`
+		} `json:"jsonDecoderNilGuards"`
 	}
 	if json.Unmarshal(gb, &got) != nil || json.Unmarshal(eb, &exp) != nil {
 		c.Report(vh.Finding{Class: "panic-site-facts-unreadable", What: "cannot parse panic site facts", Check: "proof", NoInput: true})
 		return
 	}
-	key := func(s site) string { return s.File + "|" + s.Func + "|" + s.Kind + "|" + s.Expr }
+	// the guard (enclosing len(...) test of an index site) is part of the identity: a site that loses its guard is new
+	key := func(s site) string {
+		k := s.File + "|" + s.Func + "|" + s.Kind + "|" + s.Expr
+		if s.Guard != "" {
+			k += "|if " + s.Guard
+		}
+		return k
+	}
 	known := map[string]bool{}
 	for _, s := range exp.PanicSites {
 		known[key(s)] = true
@@ -1326,7 +1343,17 @@ func c10CheckPanicSites(c *vh.Ctx) {
 	}
 	diff("text-parser construction site", got.Parser, exp.Parser.Value)
 	diff("nil-able pointer container in the JSON policy codec", got.Ptr, exp.Ptr.Value)
-	c.Res.Notes = append(c.Res.Notes, fmt.Sprintf("panic sites: %d regenerated, %d classified; parser construction sites %d; pointer containers %d", len(got.PanicSites), len(exp.PanicSites), len(got.Parser), len(got.Ptr)))
+	// the nil guards of the decoder loops must all still be there (the reverse direction: expected ⊆ regenerated)
+	haveGuard := map[string]bool{}
+	for _, g := range got.NilGuards {
+		haveGuard[g] = true
+	}
+	for _, g := range exp.NilGuards.Value {
+		if !haveGuard[g] {
+			problems = append(problems, "missing nil guard in a JSON policy decoder loop: "+g)
+		}
+	}
+	c.Res.Notes = append(c.Res.Notes, fmt.Sprintf("panic sites: %d regenerated, %d classified; parser construction sites %d; pointer containers %d; nil guards %d", len(got.PanicSites), len(exp.PanicSites), len(got.Parser), len(got.Ptr), len(got.NilGuards)))
 	if len(problems) > 0 {
 		c.Report(vh.Finding{Class: "panic-site-unclassified", What: strings.Join(problems, "; "), Check: "proof", Op: "facts", NoInput: true,
 			Input: map[string]any{"problems": problems}})
